@@ -165,7 +165,39 @@ pub fn run(tier: &str, seed: u64) -> Stats {
         };
         let ptxt = pol(&mut rng);
         let ap = AccessPolicy::parse(&ptxt).unwrap();
+        let older_msk = ser(&msk).ok();
         let Some(usk) = call(|| cc.generate_user_secret_key(&mut msk, &ap)).ok() else { continue };
+        // natural error with a valid signature: the id is unknown to an older serialization of the
+        // same master key; the refused key and that master key must stay as they are
+        if let Some(ob) = &older_msk {
+            for keep in [true, false] {
+                let (Some(mut old), Some(before_u)) = (de::<MasterSecretKey>(ob).ok(), ser(&usk).ok()) else { continue };
+                let before_m = canon(&old);
+                let mut u = usk.clone();
+                let out = call(|| cc.refresh_usk(&mut old, &mut u, keep));
+                st.bump("natural_error_refresh_unknown_id");
+                st.shapes.insert(fnv(format!("unknown-id|keep={keep}|{n_dims}").as_bytes()));
+                if let Out::Err(_) = out {
+                    if ser(&u).ok().as_ref() != Some(&before_u) {
+                        st.findings.push(Finding {
+                            prop: "C10".into(),
+                            signature: format!("C10:usk-changed-by-failed-call:refresh:unknown-id"),
+                            detail: format!("refresh(keep={keep}) of a key whose id the master key does not know returned an error and changed the key ({} → {} bytes)", before_u.len(), ser(&u).ok().map_or(0, |b| b.len())),
+                            replay: json!({"monitor": "c10fp", "op": "refresh-unknown-id", "keep": keep}),
+                        });
+                    } else if canon(&old) != before_m {
+                        st.findings.push(Finding {
+                            prop: "C10".into(),
+                            signature: "C10:msk-changed-by-failed-call:refresh:unknown-id".into(),
+                            detail: "the master key changed".into(),
+                            replay: json!({"monitor": "c10fp", "op": "refresh-unknown-id", "keep": keep}),
+                        });
+                    } else {
+                        st.bump("failed_call_state_unchanged");
+                    }
+                }
+            }
+        }
         if rng.chance(1, 2) {
             let _ = call(|| cc.rekey(&mut msk, &ap));
         }
